@@ -1087,6 +1087,10 @@ func (sc *serverConn) handleFrame(strm *Stream, fr *FrameHeader) error {
 				return NewGoAwayError(ProtocolError, "END_HEADERS received on an incomplete stream")
 			}
 
+			if strm.rejected != nil {
+				return strm.rejected
+			}
+
 			if err := validateRequestPseudoHeaders(strm); err != nil {
 				return err
 			}
@@ -1217,6 +1221,8 @@ func (sc *serverConn) handleHeaderFrame(strm *Stream, fr *FrameHeader) error {
 			break
 		}
 
+		fieldsProcessed++
+
 		k, v := hf.KeyBytes(), hf.ValueBytes()
 
 		// RFC 7540 6.5.2 sizes a field as name + value + 32. The running total
@@ -1227,42 +1233,62 @@ func (sc *serverConn) handleHeaderFrame(strm *Stream, fr *FrameHeader) error {
 			return NewGoAwayError(EnhanceYourCalm, "header list exceeds the maximum size")
 		}
 
+		// The request has already been found malformed. The rest of its header
+		// block still has to go through the decoder, or the dynamic table falls
+		// out of step with the peer's and every later request on the
+		// connection decodes to something else.
+		if strm.rejected != nil {
+			continue
+		}
+
 		// Header field names must not contain uppercase characters.
 		// https://httpwg.org/specs/rfc7540.html#rfc.section.8.1.2
 		if hasUpperCase(k) {
-			return NewResetStreamError(ProtocolError, "header field name contains uppercase characters")
+			strm.rejected = NewResetStreamError(ProtocolError, "header field name contains uppercase characters")
+
+			continue
 		}
 
 		if hf.IsPseudo() {
 			// All pseudo-header fields must appear before regular header fields.
 			// https://httpwg.org/specs/rfc7540.html#rfc.section.8.1.2.1
 			if strm.regularSeen {
-				return NewResetStreamError(ProtocolError, "pseudo-header field after regular header field")
+				strm.rejected = NewResetStreamError(ProtocolError, "pseudo-header field after regular header field")
+
+				continue
 			}
 
 			switch {
 			case bytes.Equal(k, StringMethod):
 				if strm.pseudoMethod {
-					return NewResetStreamError(ProtocolError, "duplicate :method pseudo-header")
+					strm.rejected = NewResetStreamError(ProtocolError, "duplicate :method pseudo-header")
+
+					continue
 				}
 				strm.pseudoMethod = true
 				req.Header.SetMethodBytes(v)
 			case bytes.Equal(k, StringPath):
 				if strm.pseudoPath {
-					return NewResetStreamError(ProtocolError, "duplicate :path pseudo-header")
+					strm.rejected = NewResetStreamError(ProtocolError, "duplicate :path pseudo-header")
+
+					continue
 				}
 				strm.pseudoPath = true
 				strm.path = append(strm.path[:0], v...)
 				req.Header.SetRequestURIBytes(v)
 			case bytes.Equal(k, StringScheme):
 				if strm.pseudoScheme {
-					return NewResetStreamError(ProtocolError, "duplicate :scheme pseudo-header")
+					strm.rejected = NewResetStreamError(ProtocolError, "duplicate :scheme pseudo-header")
+
+					continue
 				}
 				strm.pseudoScheme = true
 				strm.scheme = append(strm.scheme[:0], v...)
 			case bytes.Equal(k, StringAuthority):
 				if strm.pseudoAuthority {
-					return NewResetStreamError(ProtocolError, "duplicate :authority pseudo-header")
+					strm.rejected = NewResetStreamError(ProtocolError, "duplicate :authority pseudo-header")
+
+					continue
 				}
 				strm.pseudoAuthority = true
 				req.Header.SetHostBytes(v)
@@ -1270,10 +1296,11 @@ func (sc *serverConn) handleHeaderFrame(strm *Stream, fr *FrameHeader) error {
 			default:
 				// Any pseudo-header that is not a valid request pseudo-header
 				// (including response pseudo-headers such as :status) is invalid.
-				return NewResetStreamError(ProtocolError, fmt.Sprintf("invalid request pseudo-header %s", k))
+				strm.rejected = NewResetStreamError(ProtocolError, fmt.Sprintf("invalid request pseudo-header %s", k))
+
+				continue
 			}
 
-			fieldsProcessed++
 			continue
 		}
 
@@ -1283,11 +1310,15 @@ func (sc *serverConn) handleHeaderFrame(strm *Stream, fr *FrameHeader) error {
 		// Connection-specific header fields are forbidden.
 		// https://httpwg.org/specs/rfc7540.html#rfc.section.8.1.2.2
 		if isConnectionSpecific(k) {
-			return NewResetStreamError(ProtocolError, "connection-specific header field")
+			strm.rejected = NewResetStreamError(ProtocolError, "connection-specific header field")
+
+			continue
 		}
 
 		if bytes.Equal(k, StringTE) && !bytes.Equal(v, StringTrailers) {
-			return NewResetStreamError(ProtocolError, "TE header field with a value other than trailers")
+			strm.rejected = NewResetStreamError(ProtocolError, "TE header field with a value other than trailers")
+
+			continue
 		}
 
 		switch {
@@ -1300,11 +1331,15 @@ func (sc *serverConn) handleHeaderFrame(strm *Stream, fr *FrameHeader) error {
 			if perr != nil {
 				// Not 1*DIGIT, or too large to be a length: the request is
 				// malformed (RFC 7540 8.1.2.6), not one without a length.
-				return NewResetStreamError(ProtocolError, "invalid content-length")
+				strm.rejected = NewResetStreamError(ProtocolError, "invalid content-length")
+
+				continue
 			}
 
 			if sc.maxRequestBodySize > 0 && n > sc.maxRequestBodySize {
-				return NewResetStreamError(EnhanceYourCalm, "request body is too large")
+				strm.rejected = NewResetStreamError(EnhanceYourCalm, "request body is too large")
+
+				continue
 			}
 
 			strm.contentLength = n
@@ -1314,8 +1349,6 @@ func (sc *serverConn) handleHeaderFrame(strm *Stream, fr *FrameHeader) error {
 		default:
 			req.Header.AddBytesKV(k, v)
 		}
-
-		fieldsProcessed++
 	}
 
 	return err
